@@ -657,6 +657,49 @@ def _task_twins(path):
     return acc.result()
 
 
+def _task_huge(si):
+    """A value with a payload of 2 MiB + 4321 bytes in between: [small, huge, small] x {write, read} on one subject, for
+    every string / bytes / records slot of the class in turn; the small value's results must be those of a fresh process
+    (pooled or reused buffers that a big message leaves grown, truncated or positioned elsewhere)."""
+    from kio.serial import entity_reader, entity_writer
+
+    acc = Acc(max_samples=1)
+    s = subjects()[si]
+    ws = s.ws
+    tree = values.build(ws, "value", 300)
+    n = 0
+    for hw in values.huge_instances(tree):
+        n += 1
+        hinst = bridge.to_entity(ws, hw)
+        hgold = bytes(refcodec.encode(ws, hw, bridge.wire_default).buf)
+        clear_caches()
+        steps = [("w", s.insts[0], s.golden[0]), ("w", hinst, hgold), ("w", s.insts[0], s.golden[0]), ("w", s.insts[2], s.golden[2]),
+                 ("r", s.insts[0], s.golden[0]), ("r", hinst, hgold), ("r", s.insts[0], s.golden[0]), ("w", s.insts[1], s.golden[1])]
+        acc.add("evaluations")
+        acc.add("huge_histories")
+        for step, (kind, inst, gold) in enumerate(steps):
+            try:
+                if kind == "w":
+                    b = io.BytesIO()
+                    entity_writer(ws.cls)(b, inst)
+                    ok = b.getvalue() == gold
+                    obs = f"{len(b.getvalue())} bytes, first difference at {next((i for i, (x, y) in enumerate(zip(b.getvalue(), gold)) if x != y), min(len(gold), len(b.getvalue())))}"
+                else:
+                    v = entity_reader(ws.cls)(io.BytesIO(gold))
+                    ok = v == inst
+                    obs = repr(v)[:200]
+            except Exception as e:  # noqa: BLE001
+                ok, obs = False, repr(e)[:300]
+            if not ok:
+                acc.report(violation("C19", "huge", f"C19/huge/{'write' if kind == 'w' else 'read'}-differs-around-a-huge-message", s.path,
+                                     {"class": s.path, "huge_history": n, "failing_step": step, "steps": "w small, w HUGE, w small, w long, r small, r HUGE, r small, w long"},
+                                     f"{len(gold)} bytes as on a fresh process" if kind == "w" else repr(inst)[:200], obs, (n, step)))
+                break
+        else:
+            acc.outcome("results unaffected by a huge message in between")
+    return acc.result()
+
+
 def run_c19(tier):
     run = Run("C19", tier, "model_checking")
     subjects()
@@ -687,6 +730,9 @@ def run_c19(tier):
         run.merge(res)
     # part 1c: equal twins
     for res in pmap(_task_twins, TWIN_SET):
+        run.merge(res)
+    # part 1d: a huge message in between
+    for res in pmap(_task_huge, list(range(len(CLASS_SET)))):
         run.merge(res)
     # part 1b: abstract-state BFS (in this process)
     acc = Acc()
@@ -755,7 +801,8 @@ def run_c19(tier):
         + f", {len(harnesses()) - 2} harnesses (warm/cold, same/different/nested classes; thorough adds two 3-thread harnesses at bound 1, where "
         "the thread that continues after another ends is the lowest-numbered one unless a preemption says otherwise); (4) equal twins: on classes "
         "with float64 / timestamp fields, every sequence up to length 3 of writing and reading two values that are == and hash-equal but "
-        "encode differently (0.0 / -0.0; the two instants of a repeated DST hour in their zone). Golden results come from the "
+        "encode differently (0.0 / -0.0; the two instants of a repeated DST hour in their zone); (5) per subject and string / bytes slot: small, HUGE "
+        "(2 MiB + 4321 bytes), small, long - written, then read. Golden results come from the "
         "reference codec. Non-trivial = every history but the empty one, every fault position, every schedule"
     )
     c["exhaustive"] = not run.caps
@@ -777,6 +824,9 @@ def replay(prop, path):
         L = [tuple(x) for x in letters()]
         hist = tuple(L.index(tuple(op)) for op in case["history"])
         run_history(hist, acc, (0,))
+    elif "huge_history" in case:
+        res = _task_huge(CLASS_SET.index(case["class"]))
+        acc.violations = {v["signature"]: v for v in res["violations"]}
     elif "twin_history" in case:
         res = _task_twins(case["class"])  # the 84 sequences of that class, the recorded one among them
         acc.violations = {v["signature"]: v for v in res["violations"]}
